@@ -495,6 +495,66 @@ def threshold_line(ctx, count, rng):
     ctx.differential('threshold-quota-selector', qs_cases, c09.qs_model_line, qsel_impl, canon=c09.canon, nontrivial=big_or_on_line, spec=qsel_spec)
 
 
+# ------------------------------------------------------------------ PureProportionality: implementation on k-fold votes vs the model on the votes
+def pp_model_line(c):
+    return '%d (%s %d %s %s)' % (BLOCK['C11'] + 1, sx([[p, q(v)] for p, v in c['votes']]), c['n'],
+                                 sx([[p, v] for p, v in c['prev']]), sx([[p, v] for p, v in c['caps']]))
+
+
+def pp_impl(c):
+    import votelib.evaluate.proportional as prop
+    k = q(c['k'])
+    votes = {cname(p): rep_num(q(v) * k, c['rep']) for p, v in c['votes']}
+    res = prop.PureProportionality().evaluate(votes, c['n'], prev_gains={cname(p): v for p, v in c['prev']},
+                                              max_seats={cname(p): v for p, v in c['caps']})
+    out = []
+    for cand, seats in res.items():
+        if isinstance(seats, float):
+            raise common.FloatLeak('float seats %r for %s' % (seats, cand))
+        out.append([cnum(cand), q(seats)])
+    return ok(out)
+
+
+def pp_canon(c, wire):
+    v = common.parse_sx(wire)
+    if v[0] != 0:
+        return ('err', v[1])
+    return ('ok', tuple(sorted((p, Fraction(*s) if isinstance(s, list) else Fraction(s)) for p, s in v[1])))
+
+
+def pp_spec(c, io, mo):
+    """declarative reading without floors / ceilings: every party gets exactly v * n / total seats (a share of the house: the factor k cancels)"""
+    v = pp_canon(c, io)
+    if v[0] != 'ok':
+        return None if v[1] == common.E['ZERODIV'] else 'pure proportionality refused exact rational votes: %s' % c.get('_exc')
+    if c['prev'] or c['caps']:
+        return None
+    exact = {p: q(x) for p, x in c['votes']}
+    total = sum(exact.values())
+    want = tuple(sorted((p, x * c['n'] / total) for p, x in exact.items()))       # a party without votes (or a house without seats) is listed with 0 seats
+    if v[1] != want:
+        return 'pure proportionality on %s-fold votes gives %s; the exact shares v * n / total are %s' % (c['k'], v[1], want)
+    return None
+
+
+def gen_pure(rng, count):
+    for _ in range(count):
+        m = rng.randint(1, 6)
+        style = rng.choice(['small', 'mid', 'zeros', 'frac', 'equal'])
+        ids = list(range(1, m + 1))
+        rng.shuffle(ids)
+        votes = []
+        for p in ids:
+            x = {'small': lambda: rng.randint(0, 9), 'mid': lambda: rng.randint(1, 1000), 'zeros': lambda: rng.choice([0, 0, rng.randint(1, 20)]),
+                 'frac': lambda: Fraction(rng.randint(0, 40), rng.randint(1, 6)), 'equal': lambda: rng.choice([12, 24])}[style]()
+            votes.append([p, jq(x)])
+        r = rng.random()
+        prev = [[p, rng.randint(0, 3)] for p in ids if rng.random() < 0.4] if r < 0.5 else []
+        caps = [[p, rng.randint(0, 5)] for p in ids if rng.random() < 0.4] if 0.3 < r < 0.8 else []
+        yield dict(unit='pure_proportionality', votes=votes, n=rng.randint(0, 20), prev=prev, caps=caps,
+                   k=jq(rng.choice(BIGK + [1, 1, 10 ** 30])), rep=rng.choice(['int', 'int', 'frac']))
+
+
 # ------------------------------------------------------------------ PAV / SPAV: exactly tied committees and one-vote leads
 def harmonic(n):
     return [sum(Fraction(1, j + 1) for j in range(i)) for i in range(n + 1)]
@@ -814,6 +874,8 @@ def replay_case(ctx, c, stream):
         ctx.differential(stream, [c], c09.qs_model_line, qsel_impl, canon=c09.canon, nontrivial=lambda cc: True, spec=qsel_spec)
     elif c.get('unit') in ('pav', 'spav'):
         ctx.differential(stream, [c], c12.model_line, ap_impl, canon=c12.canon, nontrivial=lambda cc: True, spec=ap_spec, limit=10)
+    elif c.get('unit') == 'pure_proportionality':
+        ctx.differential(stream, [c], pp_model_line, pp_impl, canon=pp_canon, nontrivial=lambda cc: True, spec=pp_spec)
     elif c.get('unit') == 'highest_averages':
         ctx.differential(stream, [c], c01.model_line, lambda cc: c01.impl(scaled_ha(cc)), canon=c01.canon, nontrivial=lambda cc: True)
     elif c.get('unit') == 'get_n_best':
@@ -842,6 +904,8 @@ def explore(ctx, widen=1):
     near_tie_checks(ctx, 'near-tie', ctx.n(150, 2000), rng)
     threshold_line(ctx, ctx.n(900, 12000) * widen, rng)
     approval_ties(ctx, ctx.n(500, 6000) * widen, rng)
+    ctx.differential('pure-proportionality', gen_pure(rng, ctx.n(1200, 15000) * widen), pp_model_line, pp_impl, canon=pp_canon,
+                     nontrivial=lambda c: q(c['k']) > 2 ** 53 or bool(c['prev'] or c['caps']), spec=pp_spec)
     exact_type_checks(ctx, 'exact-types', ctx.n(300, 4000), rng)
     score_magnitude_check(ctx, 'score-magnitude')
     if ctx.tier == 'thorough':
